@@ -22,6 +22,13 @@ CountStrings ==
 UpperVariants == { UpperS(Encode5(<<97, 98>>, Fill(n, 5, 0))) : n \in {0, 1, 2, 4, 5, 7, 8, 16} }
 MixedVariants == { LET t == Encode5(<<97, 98>>, Fill(n, 5, 0)) IN [t EXCEPT ![k] = ToUpperC(t[k])]
                    : n \in {0, 8}, k \in {1, 2, 4, 9} }
+\* one part in one case, the other part in the other case (also letter-free parts)
+PartCase == UNION { LET t == Encode5(h, Fill(n, 5, 0)) sep == Len(h) + 1
+                    IN { [i \in DOMAIN t |-> IF i < sep THEN ToUpperC(t[i]) ELSE t[i]],
+                         [i \in DOMAIN t |-> IF i > sep THEN ToUpperC(t[i]) ELSE t[i]],
+                         [i \in DOMAIN t |-> IF i > sep + n THEN ToUpperC(t[i]) ELSE t[i]],
+                         [i \in DOMAIN t |-> IF i > sep /\ i <= sep + n THEN ToUpperC(t[i]) ELSE t[i]] }
+                    : h \in {<<97>>, <<97, 98>>, <<50, 97>>, <<50, 51>>, <<116, 101, 115, 116>>}, n \in {0, 2, 8} }
 \* total length 89, 90, 91 with a long hrp; data 8 symbols (5 bytes)
 Boundary == { Encode5([i \in 1..hl |-> 97 + (i % 20)], Fill(8, 3, 0)) : hl \in 72..78 }
 Separators == { Encode5(h, Fill(8, 7, 0)) : h \in {<<49>>, <<49, 49>>, <<97, 49, 98>>, <<49, 97>>, <<97, 49>>} }
@@ -30,7 +37,16 @@ HrpBytes == { Encode5(<<c>>, Fill(8, 9, 0)) : c \in {32, 33, 47, 48, 57, 58, 64,
 Truncations == LET t == Encode5(<<98, 99>>, Fill(8, 9, 0))
                IN { SubSeq(t, 1, k) : k \in 0..Len(t) } \cup { SubSeq(t, k, Len(t)) : k \in 1..Len(t) }
 
-DecodeInputs == CountStrings \cup UpperVariants \cup MixedVariants \cup Boundary \cup Separators
+\* checksum residues other than 1 must be rejected: all residues at Hamming distance 1 and 2
+\* from 1, 0, all ones, the Bech32m constant (BIP-350) and a spread of others
+Bit(k) == Pow(2, k)
+Residues == {0, 1073741823, 734539939} \cup {1 ^^ Bit(k) : k \in 0..29}
+            \cup {(1 ^^ Bit(j)) ^^ Bit(k) : j \in 0..29, k \in 0..29}
+            \cup {(k * 104729 + 12345) % 1073741824 : k \in 1..200}
+ResidueStrings == { Encode5Residue(<<98, 99>>, Fill(8, 3, 0), c) : c \in Residues \ {1} }
+                  \cup { Encode5Residue(<<97>>, Fill(n, 17, 0), c) : n \in {0, 5, 40}, c \in {0, 734539939, 3, 536870913} }
+
+DecodeInputs == CountStrings \cup UpperVariants \cup MixedVariants \cup PartCase \cup ResidueStrings \cup Boundary \cup Separators
                 \cup HrpBytes \cup Truncations
 
 EncodeInputs ==
